@@ -137,7 +137,10 @@ def length_lemmas():
         exp = (hb, [(n, b, list(inner)) for n, b, inner in groups])
         out.append((f"tables.length[{ident}]", got == exp, {"expected": str(exp), "tree": str(got), "provenance": prov}))
     for ident, d in m.items():
-        level = int(ident[3])
+        level = int(ident[3]) if len(ident) == 4 and ident.isdigit() else -1
+        if level not in pinned.MSM_SAT_BITS or ident[:3] not in pinned.MSM_EPOCH:
+            out.append((f"tables.length[{ident}]", False, {"problem": "MSM definition keyed by a number that is not MSM1-7 of one of the seven constellations"}))
+            continue
         try:
             hb, groups = layout(d, DF)
         except Exception as e:  # noqa
@@ -149,6 +152,56 @@ def length_lemmas():
         ok = hb == pinned.MSM_HEADER and sat == pinned.MSM_SAT_BITS[level] and cell == pinned.MSM_CELL_BITS[level] and not other
         out.append((f"tables.length[{ident}]", ok, {"header": hb, "per_sat": sat, "per_cell": cell, "expected": (
             pinned.MSM_HEADER, pinned.MSM_SAT_BITS[level], pinned.MSM_CELL_BITS[level]), "provenance": pinned.STD}))
+    return out
+
+
+def _poly(hb, groups):
+    """length formula as {monomial (sorted tuple of counter names): coefficient}"""
+    p = {(): hb}
+    for n, b, inner in groups:
+        p[(n,)] = p.get((n,), 0) + b
+        for n2, b2 in inner:
+            k = tuple(sorted((n, n2)))
+            p[k] = p.get(k, 0) + b2
+    return p
+
+
+def no_longer_than_standard_lemmas():
+    """C02 ('no valid frame is lost'): for no values of its repeat counts does a definition require MORE bits than the standard
+    assigns to a message of that type - otherwise a standard-conformant frame (padded to a byte boundary, i.e. at most 7 spare
+    bits) is over-read, refused and dropped.  Coefficient-wise comparison of the two length polynomials; a definition that needs
+    FEWER bits loses no frame (that is C03/C06/C10's business) and passes here."""
+    core, g, m, i, _ = T()
+    DF = core.RTCM_DATA_FIELDS
+    out = []
+    for ident, d in list(g.items()) + list(i.items()):
+        if ident not in pinned.LENGTHS:
+            continue  # a definition the standard tables do not list: nothing to lose (C10 reports it)
+        hb, groups, prov = pinned.LENGTHS[ident]
+        try:
+            ghb, ggroups = layout(d, DF)
+        except Exception as e:  # noqa
+            out.append((f"tables.needs_no_more_bits_than_standard[{ident}]", False, {"problem": repr(e)}))
+            continue
+        std, tree = _poly(hb, [(n, b, list(inner)) for n, b, inner in groups]), _poly(ghb, ggroups)
+        excess = {k: v - std.get(k, 0) for k, v in tree.items() if v > std.get(k, 0) and (k != () or v - std.get(k, 0) >= 8)}
+        out.append((f"tables.needs_no_more_bits_than_standard[{ident}]", not excess,
+                    {"excess_bits_per_unit_of": {" x ".join(k) or "1": v for k, v in excess.items()}, "standard": str(std), "tree": str(tree), "provenance": prov}))
+    for ident, d in m.items():
+        level = int(ident[3]) if len(ident) == 4 and ident.isdigit() else -1
+        if level not in pinned.MSM_SAT_BITS:
+            continue
+        try:
+            hb, groups = layout(d, DF)
+        except Exception as e:  # noqa
+            out.append((f"tables.needs_no_more_bits_than_standard[{ident}]", False, {"problem": repr(e)}))
+            continue
+        sat = sum(b for n, b, inner in groups if n == "NSat")
+        cell = sum(b for n, b, inner in groups if n == "NCell")
+        other = [x for x in groups if x[0] not in ("NSat", "NCell") or x[2]]
+        ok = hb < pinned.MSM_HEADER + 8 and sat <= pinned.MSM_SAT_BITS[level] and cell <= pinned.MSM_CELL_BITS[level] and not other
+        out.append((f"tables.needs_no_more_bits_than_standard[{ident}]", ok, {"header": hb, "per_sat": sat, "per_cell": cell, "standard": (
+            pinned.MSM_HEADER, pinned.MSM_SAT_BITS[level], pinned.MSM_CELL_BITS[level])}))
     return out
 
 
